@@ -97,6 +97,10 @@ type PlainProbe struct {
 	// 2 an error wrapping context.DeadlineExceeded (as when an operation under a component's own sub-context gives
 	// up) - in every case while the component's context is still alive.
 	ErrKind int
+	// TrackOutputs makes every wake-up a tracked reconcile cycle: StartTrackingOutputs first, CleanupOutputs over the
+	// output kinds (namespace n1) when the cycle ends well. A failing or panicking cycle leaves the tracker armed:
+	// the runtime has to reset it when Run exits. (CleanupOutputs also resets the restart backoff.)
+	TrackOutputs bool
 }
 
 // ScriptedErr builds the error of a scripted failure (see ErrKind).
@@ -249,6 +253,10 @@ func (p *PlainProbe) Run(ctx context.Context, r controller.Runtime, _ *zap.Logge
 
 		p.W.Touch()
 
+		if p.TrackOutputs {
+			r.StartTrackingOutputs()
+		}
+
 		p.mu.Lock()
 		n := p.wakes
 		p.wakes++
@@ -314,6 +322,17 @@ func (p *PlainProbe) Run(ctx context.Context, r controller.Runtime, _ *zap.Logge
 		case "panic":
 			panic(fmt.Sprintf("probe %s: scripted panic #%d", p.NameStr, n))
 		default:
+			if p.TrackOutputs {
+				kinds := make([]resource.Kind, 0, len(p.Outs))
+				for _, out := range p.Outs {
+					kinds = append(kinds, resource.NewMetadata("n1", out.Typ, "", resource.VersionUndefined))
+				}
+
+				if err := r.CleanupOutputs(ctx, kinds...); err != nil {
+					return fmt.Errorf("probe %s: output cleanup: %w", p.NameStr, err)
+				}
+			}
+
 			if p.ResetBackoffOnOK {
 				r.ResetRestartBackoff()
 			}
